@@ -8,7 +8,9 @@
         THE declaration of a global name, and inside a procedure THE parameter / variable the local
         table holds ([find_type_decl], [find_proc_decl_occ], [find_predefined], [find_local]);
      C  [creator_decl] follows the alias chain of a type name to the declaration that created its
-        array type - the `creator` recorded in the DataType ([chain_ok]). *)
+        array type - the `creator` recorded in the DataType ([chain_ok]).
+   Part 3 (Proofs/GotoValidHandlers.v): the answers of the `_at` functions for a global type, a procedure and
+   a local; part 4 (Proofs/GotoValidMain.v): the frame per syntactic role and the theorem [goto_valid]. *)
 From Coq Require Import PeanoNat Lia.
 From Spl Require Import Proofs.GrammarBase Proofs.GrammarExpr Proofs.GrammarStmt.
 From Spl Require Import Proofs.GrammarProofs Spec.Typing Model.Errors Proofs.SemProofs Proofs.TypingProofs.
